@@ -30,7 +30,7 @@ func runC16(c *Ctx) {
 	r := c.R
 	r.Rule("R16-exit-halts", "every way out of the command loop halts the search and clears the active flag before the output channel is closed", 10)
 	r.Rule("R16-close-owner", "the output channel is sent to only by the goroutine that closes it or by goroutines it has joined before closing", 1)
-	r.Rule("R16-stale", "a goroutine that can complete a search is tied to that search: joined before the next search is armed, or guarded by a per-search token", 1)
+	r.Rule("R16-stale", "a goroutine that can complete a search is tied to that search: joined before the next search is armed, or guarded by a per-search token; info lines are printed only for the search they belong to", 2)
 	r.Rule("R16-ready", "isready is always answered; no command other than quit (or end of input / close) terminates the command loop", 10)
 	r.Rule("R16-locks", "engine state is accessed only with the engine mutex held; driver state that is not atomic is touched only by the command-loop goroutine; goroutines started by the driver capture only the driver, the context, the result channel and the infinite flag", 4)
 	r.Rule("R16-noblock", "no mutex is held across a blocking channel receive whose producer needs the same mutex (the halt/publish hand-shake cannot deadlock)", 1)
@@ -38,12 +38,16 @@ func runC16(c *Ctx) {
 
 	r.Rule("R16-supersede", "a command that halts the engine's search on the way to something else (position, go, ucinewgame) clears the active flag first: otherwise the halted search's forwarder sees its channel close and answers bestmove for a search that was superseded", 4)
 
+	r.Rule("R16-options", "a hash size given on the command line reaches the engine only inside a range for which the table allocation cannot panic (lower and constant upper bound at the call, or a clamp in the setter)", 2)
+	c.guard("R16-options", func() { c16Options(c, "R16-options") })
+	r.Rule("R16-timer", "a timer whose callback halts the engine (not a search handle of its own) is kept and stopped when the search it was armed for ends or is superseded", 1)
 	d := newDriverModel(c, "R16-exit-halts")
 	if d == nil {
 		return
 	}
 	c.guard("R16-exit-halts", func() { c16Exits(c, d) })
 	c.guard("R16-supersede", func() { c16Supersede(c, d) })
+	c.guard("R16-timer", func() { c16Timer(c, d) })
 	c.guard("R16-close-owner", func() { c16Channels(c, d) })
 	c.guard("R16-locks", func() { c16Locks(c, d) })
 	c.guard("R16-nojoin", func() { c16Random(c) })
@@ -167,17 +171,57 @@ func c16Channels(c *Ctx, d *driverModel) {
 	r.Check(!closes || len(unjoined) == 0, "R16-close-owner", "output channel: closed by the command loop, sent to by unjoined goroutines", c.pos(d.process.Pos()), "", fmt.Sprintf("the command loop closes the output channel on exit, but %v send on it (through searchCompleted) and are never joined: a search that completes after the loop has returned panics with 'send on closed channel'", unjoined))
 
 	// R16-stale: what ties a completion to its search?
-	tokenised := d.searchCompleted.Signature.Params().Len() > 2 // a generation/token parameter besides ctx and pv
-	casOnBool := false
+	// a per-search token: the value the compare-and-swap expects is handed in by the caller (the id of the
+	// search that completed), not a constant shared by all searches
+	tokenised, casOnBool := false, false
 	for _, b := range d.searchCompleted.Blocks {
 		for _, ins := range b.Instrs {
-			if call, ok := ins.(ssa.CallInstruction); ok {
-				if f := call.Common().StaticCallee(); f != nil && f.String() == "(*sync/atomic.Bool).CompareAndSwap" {
-					casOnBool = true
+			if d.flagOp(ins) != "win" {
+				continue
+			}
+			old := stripConv(ins.(ssa.CallInstruction).Common().Args[1])
+			if _, isParam := old.(*ssa.Parameter); isParam {
+				tokenised = true
+			} else {
+				casOnBool = true // a constant, or whatever the flag holds right now: shared by all searches
+			}
+		}
+	}
+	// intermediate information is attributed to its search: where the command loop decides whether to print
+	// an info line it compares the flag with something that came with the line, it does not just test "some
+	// search is active" (a superseded search's lines would be printed as the new search's)
+	untagged := ""
+	for _, b := range d.process.Blocks {
+		for _, ins := range b.Instrs {
+			if d.flagOp(ins) != "load" {
+				continue
+			}
+			v, _ := ins.(ssa.Value)
+			if v == nil || v.Referrers() == nil {
+				continue
+			}
+			for _, ref := range *v.Referrers() {
+				if _, isIf := ref.(*ssa.If); isIf {
+					untagged = c.pos(ins.Pos())
+				}
+				// flag compared with a constant ("some search is active")
+				if bo, ok := ref.(*ssa.BinOp); ok && bo.Referrers() != nil {
+					other := bo.X
+					if stripConv(other) == v {
+						other = bo.Y
+					}
+					if _, isConst := stripConv(other).(*ssa.Const); isConst {
+						for _, r2 := range *bo.Referrers() {
+							if _, isIf := r2.(*ssa.If); isIf {
+								untagged = c.pos(ins.Pos())
+							}
+						}
+					}
 				}
 			}
 		}
 	}
+	r.Check(joined || untagged == "", "R16-stale", "info lines are printed only for the search they belong to", c.pos(d.process.Pos()), "", "the command loop prints intermediate information whenever the flag is set ("+untagged+"), whichever search produced it: after 'go', 'go' the lines of the superseded search appear as the new search's")
 	r.Check(joined || tokenised || !casOnBool, "R16-stale", "search completion is guarded by one shared boolean", c.pos(d.searchCompleted.Pos()), "", "searchCompleted decides with CompareAndSwap(true,false) on a single atomic.Bool shared by all searches, and the forwarding goroutine of a superseded search is not joined (Engine.Halt returns before it has drained): after 'go', 'go' the forwarder of the first search can win the flag armed for the second and emit a stale bestmove")
 }
 
@@ -272,12 +316,14 @@ func c16Locks(c *Ctx, d *driverModel) {
 	// the active flag is an atomic.Bool
 	dst := d.driverT.Underlying().(*types.Struct)
 	atomicOK := false
-	for i := 0; i < dst.NumFields(); i++ {
-		if core.FieldName(dst.Field(i)) == "active" {
-			atomicOK = dst.Field(i).Type().String() == "sync/atomic.Bool"
+	if ff := d.flagField(); ff != nil {
+		for i := 0; i < dst.NumFields(); i++ {
+			if dst.Field(i) == ff {
+				atomicOK = strings.HasPrefix(ff.Type().String(), "sync/atomic.")
+			}
 		}
 	}
-	r.Check(atomicOK, "R16-locks", "the active flag is an atomic.Bool", c.pos(d.driverT.Obj().Pos()), "", "")
+	r.Check(atomicOK, "R16-locks", "the active flag is an atomic.Bool", c.pos(d.driverT.Obj().Pos()), "", "the flag the completion function wins is not a field of a sync/atomic type")
 	// what a goroutine started by the command loop shares with it must not be written once the
 	// goroutine exists: every captured variable is assigned only before the goroutine is created
 	// (by-value arguments of a named function are copies and need nothing)
@@ -404,10 +450,8 @@ func ensureInactiveShape(d *driverModel) (bool, string) {
 			if f == d.engHalt {
 				haltAt = ins
 			}
-			if f != nil && (f.String() == "(*sync/atomic.Bool).Store" || f.String() == "(*sync/atomic.Bool).Swap") {
-				if v, ok := constBoolArg(call.Common().Args[1]); ok && !v && clearAt == nil {
-					clearAt = ins
-				}
+			if d.flagOp(ins) == "clear" && clearAt == nil {
+				clearAt = ins
 			}
 		}
 	}
